@@ -15,7 +15,7 @@ import (
 
 func init() {
 	register("c14", "discovery: sequences of 1..6 published server lists (sizes 0..5, metadata over a grammar combining state, repeated group and unrelated keys) "+
-		"through a real MultipleServersDiscovery into a real XClient (fake RPC clients), published back-to-back and with pauses, under GOMAXPROCS in {1,2,16}, "+
+		"through a real MultipleServersDiscovery into a real XClient (fake RPC clients), published back-to-back and with pauses, with fresh KVPair objects or with the publisher's own objects edited in place and republished, under GOMAXPROCS in {1,2,16}, "+
 		"for every selection strategy in {random, round-robin, weighted, hash} and client group settings; after quiescence the set of servers that actually "+
 		"receive calls must equal filter(last published list); the filter itself is compared with the Lean model on grammar-generated metadata; "+
 		"non-trivial = at least two updates with different server sets; distinct = distinct input line",
@@ -164,12 +164,62 @@ func c14Converge(o *Out, r *rand.Rand, mode client.SelectMode, procs int) {
 	nup := 1 + r.Intn(6)
 	var lists [][]*client.KVPair
 	backToBack := r.Intn(3) != 0
-	for u := 0; u < nup; u++ {
-		l := mkList()
-		lists = append(lists, l)
-		d.Update(l)
-		if !backToBack {
-			time.Sleep(time.Duration(r.Intn(3)) * time.Millisecond)
+	// publisher styles: fresh objects per update, or one set of *KVPair objects edited in place
+	// and republished (same slice or a fresh slice of the same pointers) – the discovery keeps
+	// the caller's slice, so the second style makes "previous" and "new" list alias each other
+	inPlace := r.Intn(3) == 0
+	snapshot := func(l []*client.KVPair) []*client.KVPair {
+		c := make([]*client.KVPair, len(l))
+		for i, p := range l {
+			c[i] = &client.KVPair{Key: p.Key, Value: p.Value}
+		}
+		return c
+	}
+	if inPlace {
+		backToBack = false
+		own := initial
+		if len(own) == 0 {
+			own = []*client.KVPair{{Key: "fake@h0", Value: ""}}
+			d.Update(own)
+			lists = append(lists, snapshot(own))
+		}
+		for u := 0; u < nup; u++ {
+			// let the previous notification be consumed before its objects are edited
+			time.Sleep(6 * time.Millisecond)
+			for _, p := range own {
+				switch r.Intn(4) {
+				case 0:
+					p.Value = stateGroupMetas[r.Intn(len(stateGroupMetas))]
+				case 1:
+					p.Value = []string{"state=inactive", "", "group=a", "group=b"}[r.Intn(4)]
+				case 2:
+					k := fmt.Sprintf("fake@h%d", r.Intn(9))
+					dup := false
+					for _, q := range own {
+						if q.Key == k {
+							dup = true
+						}
+					}
+					if !dup {
+						p.Key = k
+					}
+				}
+			}
+			if r.Intn(2) == 0 {
+				own = append([]*client.KVPair(nil), own...)
+			}
+			d.Update(own)
+			lists = append(lists, snapshot(own))
+			o.Count("converge.in-place-update")
+		}
+	} else {
+		for u := 0; u < nup; u++ {
+			l := mkList()
+			lists = append(lists, l)
+			d.Update(l)
+			if !backToBack {
+				time.Sleep(time.Duration(r.Intn(3)) * time.Millisecond)
+			}
 		}
 	}
 	// quiescence: give the notification goroutines and the watcher time to run
@@ -202,7 +252,7 @@ func c14Converge(o *Out, r *rand.Rand, mode client.SelectMode, procs int) {
 		}
 		hist = append(hist, "["+strings.Join(ks, " ")+"]")
 	}
-	rp := map[string]any{"strategy": fmt.Sprint(mode), "group": group, "gomaxprocs": procs, "back_to_back": backToBack, "published": hist}
+	rp := map[string]any{"strategy": fmt.Sprint(mode), "group": group, "gomaxprocs": procs, "back_to_back": backToBack, "published": hist, "publisher_edits_in_place": inPlace}
 	distinctSets := map[string]bool{}
 	for _, l := range lists {
 		var ks []string
